@@ -23,6 +23,7 @@ type Ctx struct {
 	rootedSet map[*ssa.Function]bool
 	hold      *holderTypes
 	wparams   map[*ssa.Function]map[int]bool
+	denomOrd  map[string]int
 }
 
 // Rooted reports whether f is reachable from any ABCI root (handlers, ante, blockers,
